@@ -20,6 +20,7 @@ package main
 
 import (
 	"fmt"
+	"math"
 	"os"
 	"reflect"
 	"sort"
@@ -324,6 +325,8 @@ func runDescribePlugin(p *sx.Node) *sx.Node {
 }
 
 func runDescribeCase(p *sx.Node) *sx.Node {
+	buildNilProps = true
+	defer func() { buildNilProps = false }()
 	switch p.List[1].Atom {
 	case "scope":
 		return runDescribeScope(p)
@@ -412,6 +415,10 @@ func (g *dgen) scalar() *sx.Node {
 	switch r.Intn(10) {
 	case 0:
 		lo, hi := int64(r.Intn(40)-20), int64(r.Intn(60)-10)
+		if r.Chance(12) { // the ends of the int64 range: describable, and they must survive every transport (CBOR: uint64)
+			lo = pick(r, []int64{math.MinInt64, math.MinInt64 + 1, -(1 << 53), 0})
+			hi = pick(r, []int64{math.MaxInt64, math.MaxInt64 - 1, 1 << 53, 1 << 32})
+		}
 		var u *unitsD
 		if r.Chance(25) {
 			u = g.units()
@@ -444,10 +451,13 @@ func (g *dgen) scalar() *sx.Node {
 		return dFloat(&lo, &hi, u)
 	case 2:
 		if r.Chance(40) {
-			return dString(nil, nil, pick(r, patternPool))
+			return dString(nil, nil, pick(r, c09PatternPool))
 		}
 		if r.Bool() {
 			return dString(nil, nil, nil)
+		}
+		if r.Chance(10) {
+			return dString(ip(int64(r.Intn(3))), ip(pick(r, c09BigSizes)), nil)
 		}
 		return dString(ip(int64(r.Intn(3))), ip(int64(2+r.Intn(6))), nil)
 	case 3:
@@ -462,6 +472,9 @@ func (g *dgen) scalar() *sx.Node {
 		for i := 0; i < n; i++ {
 			vals = append(vals, int64(i*3-2))
 			ds = append(ds, g.enumDisplay())
+		}
+		if n > 0 && r.Chance(12) {
+			vals[n-1] = pick(r, []int64{math.MaxInt64, math.MinInt64, 1 << 53})
 		}
 		var u *unitsD
 		if r.Chance(20) {
@@ -504,7 +517,7 @@ func (g *dgen) keyType() *sx.Node {
 	case 1:
 		return dInt(ip(-3), ip(100), nil)
 	case 2:
-		return dString(nil, nil, pick(r, patternPool))
+		return dString(nil, nil, pick(r, c09PatternPool))
 	}
 	return dString(ip(1), nil, nil)
 }
@@ -524,10 +537,16 @@ func (g *dgen) typ(depth int) *sx.Node {
 	}
 	switch r.Intn(14) {
 	case 0, 1:
+		if r.Chance(8) {
+			return dList(g.typ(depth-1), ip(int64(r.Intn(2))), ip(pick(r, c09BigSizes)))
+		}
 		return dList(g.typ(depth-1), ip(int64(r.Intn(2))), ip(int64(2+r.Intn(3))))
 	case 2:
 		return dList(g.typ(depth-1), nil, nil)
 	case 3:
+		if r.Chance(8) {
+			return dMap(g.keyType(), g.typ(depth-1), nil, ip(pick(r, c09BigSizes)))
+		}
 		return dMap(g.keyType(), g.typ(depth-1), nil, ip(4))
 	case 4:
 		if g.noObj {
@@ -586,6 +605,8 @@ func (g *dgen) oneof(depth int) *sx.Node {
 		var t *sx.Node
 		if !inlined && r.Chance(40) {
 			t = sx.L(sx.A("ref"), sx.S(pick(r, g.objIDs)), sx.S(""), g.display(30))
+		} else if !inlined && r.Chance(25) {
+			t = g.nested(depth) // a whole scope as a member (the third admissible member kind)
 		} else {
 			props := g.props(depth, 1+r.Intn(2), []string{"p", "q", "w"})
 			if inlined {
@@ -599,7 +620,11 @@ func (g *dgen) oneof(depth int) *sx.Node {
 			t = dObjectD(fmt.Sprintf("mem%d", g.nscope), false, props...)
 		}
 		if intKeys {
-			l.Append(sx.L(sx.I(int64(i*5-1)), t))
+			key := int64(i*5 - 1)
+			if i == n-1 && r.Chance(10) {
+				key = pick(r, []int64{math.MaxInt64, math.MinInt64})
+			}
+			l.Append(sx.L(sx.I(key), t))
 		} else {
 			l.Append(sx.L(sx.S(string(rune('A'+i))), t))
 		}
@@ -741,10 +766,22 @@ func tableIDs(tab *sx.Node) []string {
 	return ids
 }
 
+// c09PatternPool: the shared pool plus expressions that begin or end with white space (the text of a pattern
+// must come back byte for byte).
+var c09PatternPool = append(append([]*sx.Node{}, patternPool...),
+	rCat(rBol, rPlus(rCls(false, [2]byte{'a', 'z'})), rLit(", ")),   // "^[a-z]+, "
+	rCat(rLit(" "), rPlus(rCls(false, [2]byte{'0', '9'}))),          // " [0-9]+"
+	rCat(rPlus(rChr(' ')), rEol))                                    // " +$"
+
+// c09BigSizes: size bounds at the ends of what an int64 holds.
+var c09BigSizes = []int64{math.MaxInt64, math.MaxInt64 - 1, 1 << 53, 1 << 31}
+
 var c09Quirks = []string{"enum-key", "bad-id", "empty-display", "empty-enum", "nil-enum-display", "typed-enum"}
 
 // genDescScope: one scope (with its env and inputs) per call.
 func genDescScope(r *Rng, ninputs int) *sx.Node {
+	rawBoundPct = 20
+	defer func() { rawBoundPct = 0 }()
 	g := &dgen{r: r}
 	if r.Chance(8) {
 		g.quirk = pick(r, c09Quirks)
@@ -793,6 +830,8 @@ func (g *dgen) signals(depth int, prefix string) *sx.Node {
 }
 
 func genDescPlugin(r *Rng, ninputs int) *sx.Node {
+	rawBoundPct = 20
+	defer func() { rawBoundPct = 0 }()
 	g := &dgen{r: r}
 	depth := 1 + r.Intn(2)
 	nsteps := 1 + r.Intn(2)
